@@ -74,16 +74,35 @@ func ownedSlice(v ssa.Value, depth int) bool {
 
 // sliceElemWrite: `s[i] = v` on a slice *value*. Slices have value semantics in the model; the write is
 // applied by re-binding the SSA slice value (and is only allowed on owned backing arrays).
-func (fr *Frame) sliceElemWrite(st *ssa.Store, p Val, v Val) {
+func (fr *Frame) sliceElemWrite(st *ssa.Store, p Val, v Val, state *State) {
 	fc := fr.fc
 	base := p.Fn.Base
 	if base == nil {
 		fc.unsupported("element write through an untracked slice pointer in %s", fr.fn.Name())
 		return
 	}
+	// the slice may live in a field of an object the contract lets this function modify (`modifies *x`): the
+	// updated slice is then also written back to that field
+	var home ssa.Value
 	if !ownedSlice(base, 0) {
-		fc.unsupported("#own: %s writes an element of a slice it does not own (%s at %s)", fr.fn.Name(), base.Name(), posStr(fc.W, st.Pos()))
-		return
+		if ld, ok := base.(*ssa.UnOp); ok && ld.Op == token.MUL {
+			if prm, ok := rootValue(ld.X).(*ssa.Parameter); ok && fc.C != nil && fr.isTop {
+				for _, m := range fc.C.Modifies {
+					if m == "*"+prm.Name() {
+						home = ld.X
+					}
+				}
+			}
+		}
+		if home == nil {
+			fc.unsupported("#own: %s writes an element of a slice it does not own (%s at %s)", fr.fn.Name(), base.Name(), posStr(fc.W, st.Pos()))
+			return
+		}
+	}
+	if len(p.PPath) > 0 {
+		// the store went to a field of the element: the new element is the content of the materialised cell
+		cell := Val{S: "Int", T: p.T, Typ: types.NewPointer(p.PBase), PBase: p.PBase}
+		v = fc.load(state, cell)
 	}
 	cur := fr.get(base)
 	idx := p.Fn.Data[1]
@@ -97,6 +116,9 @@ func (fr *Frame) sliceElemWrite(st *ssa.Store, p Val, v Val) {
 	cur.T = fc.B.Define("slw_"+base.Name(), cur.S, nt)
 	cur.VA = nil
 	fr.addRebind(base, cur)
+	if home != nil {
+		fc.store(state, fr.get(home), cur)
+	}
 }
 
 // appendSlices: deterministic model of append for non-byte slices: the result is a function of both
